@@ -47,8 +47,12 @@ LeafT1(rows, mode) == Leaf("T1", "sql", {"a", "b"}, BoundsOf(mode, Len(rows))[1]
 LeafT2 == Leaf("T2", "sql", {"a", "c"}, 0, -1)
 LeafT3 == Leaf("T3", "sql", {"a", "b"}, 3, 3)
 LeafX  == Leaf("X", "it1", {"a", "b"}, 1, 1)     \* a leaf of another engine (ill-formed operand)
+\* relations made by the engine itself: statically empty ("doomed") and the join identity
+LeafZ  == [k |-> "leaf", id |-> "Z", eng |-> "sql", cols |-> {"a", "b"}, min |-> 0, max |-> 0, msgs |-> 1]
+LeafZ0 == [k |-> "leaf", id |-> "Z0", eng |-> "sql", cols |-> {}, min |-> 0, max |-> 0, msgs |-> 1]
+LeafI  == Leaf("I", "sql", {}, 1, 1)
 
-Env == [T1 |-> t1, T2 |-> T2Rows, T3 |-> T3Rows]
+Env == [T1 |-> t1, T2 |-> T2Rows, T3 |-> T3Rows, Z |-> <<>>, Z0 |-> <<>>, I |-> << <<>> >>]
 
 TotalAB == <<Term(A, TRUE), Term(B, FALSE)>>
 
@@ -74,14 +78,20 @@ RECURSIVE FoldApply(_, _)
 FoldApply(t, ops) == IF ops = <<>> THEN t
                      ELSE Bind(ApplyUnary(Head(ops), t, DefaultOpts), LAMBDA x : FoldApply(x, Tail(ops)))
 
+EngineMade == {"Z", "Z0", "I"}
 OperandTree(name) ==
     IF name = "T3cc" THEN ApplyBinary(ChainOp, PlainSel(LeafT3), PlainSel(LeafT3))
     ELSE IF name = "X" THEN LeafX
+    ELSE IF name = "Z" THEN PlainSel(LeafZ)
+    ELSE IF name = "Z0" THEN PlainSel(LeafZ0)
+    ELSE IF name = "I" THEN PlainSel(LeafI)
     ELSE FoldApply(PlainSel(BaseLeaf(OperandDefs[name].base)), OperandDefs[name].ops)
 OperandRows(name) ==
     IF name = "T3cc" THEN T3Rows \o T3Rows
+    ELSE IF name \in {"Z", "Z0"} THEN <<>>
+    ELSE IF name = "I" THEN << <<>> >>
     ELSE ApplyOps(OperandDefs[name].ops, BaseRows(OperandDefs[name].base))
-AllOperands == OperandNames \cup {"T3cc"}
+AllOperands == OperandNames \cup {"T3cc"} \cup EngineMade
 
 (* ---------------- unary menus ---------------- *)
 NCalcs(h) == Cardinality({i \in DOMAIN h : h[i].f = "un" /\ h[i].op.o = "calc"})
